@@ -60,6 +60,39 @@ CHECKS = {
             "Not covered: drifts with non-zero spectrum (OU with a rate, Matern) - transcendental, no exact model; q <= 6, n*d <= 6."
         ),
     ),
+    "C03": dict(
+        engine="tracing-ssm",
+        technique="TLC trace validation (TraceProbSolver.tla over the GaussTerms.tla term algebra) of operation logs recorded from the real smoother code on a tracing state-space model; step histories from TLC behaviours of AdaptiveLoop.tla",
+        text=(
+            "The real solvers, Smoother.finalize, both smoother strategies, solve_fixed_grid and the adaptive drivers run on a "
+            "tracing SSM whose operations emit ordered events; TLC interprets the log with the explicit term algebra "
+            "(marginals as time + information history, backward conditionals, partial operations with domain checks) and "
+            "accepts a run only if every output marginal is the marginal at its time given all accepted data, the stored "
+            "conditionals are the backward conditionals between consecutive outputs, and the terminal marginal is the "
+            "filtering marginal. Histories: fixed grids, TLC-generated accept/reject behaviours for save-every-step and "
+            "checkpointed runs. Plus relational replays on the three real SSMs (final smoothed = filtered, variance "
+            "monotonicity, fixed-point = fixed-interval at shared times)."
+        ),
+        design_ref="DESIGN.md 3.2, 4 (C03), Appendix A",
+        note=(
+            "Trusted: TLC, the tracing SSM (harness/tracing.py: ids + scripted scalars), term normal forms standing for "
+            "distributions (Chapman-Kolmogorov, Markov property). Multi-step numerics by composition with C08/C09 plus sampled replays."
+        ),
+    ),
+    "C05": dict(
+        engine="tracing-ssm",
+        technique="TLC trace validation of real-code operation logs against GaussTerms/TraceProbSolver for superset/subset checkpoint pairs driven by the same TLC-generated accept/reject history; AdaptiveLoop.tla supplies the histories",
+        text=(
+            "For every TLC-generated accept/reject history the real adaptive loop and solver code run on the tracing SSM with a "
+            "checkpoint superset and a subset; TLC accepts a run only if each emitted value is the posterior at its time given "
+            "exactly the accepted steps (filter: prediction from the preceding state with the overstepping step's scale, also "
+            "through several checkpoints inside one step; fixed-point: all data, conditional between consecutive checkpoints), "
+            "which depends on the step history only; the accepted step sequences of the pair must coincide. The terminal-value "
+            "routine and off-grid marginals of save-every-step runs are held to the same terms. Relational float replays on the real SSMs."
+        ),
+        design_ref="DESIGN.md 4 (C05)",
+        note="Trusted as C03. Clipping off for pairs (as the property states). Float replays sampled at 1e-7.",
+    ),
 }
 
 NOT_APPLICABLE = {
@@ -72,6 +105,7 @@ NOT_YET = "not claimed yet: the specification/conformance check for this propert
 ENGINES = [
     dict(name="tlc", path="harness/tlc.py", kind_free_text="TLC runner: generated MC modules, counters, PrintT/ToJson behaviour export"),
     dict(name="exact-replay", path="harness/exact.py", kind_free_text="TLC as exact rational evaluator of the L2 specifications; instances replayed into the real numerical classes"),
+    dict(name="tracing-ssm", path="harness/tracing.py", kind_free_text="fake AbstractTreeNormal/LatentCond/Prior/Linearization emitting ordered op events; real solver code runs on it; logs validated by TLC (harness/l1.py)"),
     dict(name="scripted-loop", path="harness/l0.py", kind_free_text="AdaptiveLoop.tla behaviours replayed through the real adaptive loop with a scripted solver"),
 ]
 
